@@ -22,7 +22,7 @@ package entry
 
 // ---- entry_map.go: OrderedMap against its representation invariant ----
 // omInv: the map exists, keys are pairwise distinct, every key is present in the value map.
-//@ define omInv(o *OrderedMap) = o != nil && o.values != nil && off(o.keys) == 0 && (forall i int, j int :: 0 <= i && i < j && j < len(o.keys) ==> o.keys[i] != o.keys[j]) && (forall i int :: 0 <= i && i < len(o.keys) ==> has(o.values, o.keys[i]))
+//@ define omInv(o *OrderedMap) = o != nil && o.values != nil && off(o.keys) == 0 && (forall i int, j int :: 0 <= i && i < j && j < len(o.keys) ==> o.keys[i] != o.keys[j]) && (forall i int :: 0 <= i && i < len(o.keys) ==> has(o.values, o.keys[i])) && (forall k string :: has(o.values, k) ==> exists i int :: 0 <= i && i < len(o.keys) && o.keys[i] == k)
 //@ define isOM(m iface.IPFSLogOrderedEntries) = typeis(m, "*OrderedMap") && omInv(m.(*OrderedMap))
 //@ guarded OrderedMap.keys by OrderedMap.lock
 //@ guarded OrderedMap.values by OrderedMap.lock
@@ -100,3 +100,33 @@ package entry
 //@     invariant forall j int :: 0 <= j && j <= i ==> o.keys[j] == old(o.keys[j])
 //@     invariant forall j int :: len(o.keys) - 1 - i <= j && j < len(o.keys) ==> o.keys[j] == old(o.keys[j])
 //@     loopmodifies elems(o.keys)
+
+//@ func (*OrderedMap).Copy
+//@   requires omInv(o)
+//@   lockrequires held[o.lock] >= 0
+//@   ensures typeis(result, "*OrderedMap") && fresh(result) && fresh(result.(*OrderedMap).values)
+//@   ensures len(result.(*OrderedMap).keys) == len(o.keys) && fresh(result.(*OrderedMap).keys) && off(result.(*OrderedMap).keys) == 0
+//@   ensures forall i int :: 0 <= i && i < len(o.keys) ==> result.(*OrderedMap).keys[i] == o.keys[i]
+//@   ensures forall k string :: has(result.(*OrderedMap).values, k) == has(o.values, k) && (has(o.values, k) ==> result.(*OrderedMap).values[k] == o.values[k])
+//@   ensures isOM(result)
+//@   lockensures held[result.(*OrderedMap).lock] == 0
+//@   loop 0
+//@     invariant fresh(values)
+//@     invariant forall k string :: has(values, k) == visited(0)[k]
+//@     invariant forall k string :: visited(0)[k] ==> has(o.values, k) && values[k] == o.values[k]
+//@     loopmodifies mapof(values)
+
+//@ func NewOrderedMapFromEntries
+//@   requires forall i int :: 0 <= i && i < len(entries) && entries[i] != nil ==> typeis(entries[i], "*Entry")
+//@   ensures isOM(result) && fresh(result) && fresh(result.(*OrderedMap).values)
+//@   ensures forall i int :: 0 <= i && i < len(entries) && ref(entries[i]) != nil ==> has(result.(*OrderedMap).values, ehash(entries[i]))
+//@   ensures forall k string :: has(result.(*OrderedMap).values, k) ==> exists i int :: 0 <= i && i < len(entries) && ref(entries[i]) != nil && ehash(entries[i]) == k && result.(*OrderedMap).values[k] == entries[i]
+//@   ensures len(result.(*OrderedMap).keys) <= len(entries)
+//@   lockensures held[result.(*OrderedMap).lock] == 0
+//@   loop 0
+//@     invariant isOM(orderedMap) && fresh(orderedMap) && fresh(orderedMap.(*OrderedMap).values)
+//@     invariant forall i int :: 0 <= i && i < $k && ref(entries[i]) != nil ==> has(orderedMap.(*OrderedMap).values, ehash(entries[i]))
+//@     invariant forall k string :: has(orderedMap.(*OrderedMap).values, k) ==> exists i int :: 0 <= i && i < $k && ref(entries[i]) != nil && ehash(entries[i]) == k && orderedMap.(*OrderedMap).values[k] == entries[i]
+//@     invariant len(orderedMap.(*OrderedMap).keys) <= $k
+//@     lockinvariant held[orderedMap.(*OrderedMap).lock] == 0
+//@     loopmodifies orderedMap.(*OrderedMap).keys, mapof(orderedMap.(*OrderedMap).values)
